@@ -1,9 +1,14 @@
 package projsim
 
 import (
+	"bytes"
 	"crypto/sha256"
+	"encoding/base64"
 	"encoding/hex"
+	"encoding/json"
 	"fmt"
+	"github.com/pgavlin/dawn/pickle"
+	"io"
 	"io/fs"
 	"os"
 	"path/filepath"
@@ -158,12 +163,30 @@ type BuildReq struct {
 	// asked of dawn itself (VerifTargetInfoPath) so that no check depends on the layout of the state directory
 	PathsFor []string `json:"pathsfor,omitempty"`
 	Repeat   int      `json:"repeat,omitempty"` // run the same loaded Project this many extra times (as the REPL's run() does)
-	Order    []string `json:"order,omitempty"`  // package load order imposed through vf.gate (empty = free-running)
+	// Steps are performed on the same loaded Project after the first run, as watch mode does: rewrite a
+	// file, Reload, Run again.
+	Steps []Step   `json:"steps,omitempty"`
+	Order []string `json:"order,omitempty"` // package load order imposed through vf.gate (empty = free-running)
 	// crash injection (child processes only)
 	CrashSite  string `json:"crashsite,omitempty"`
 	CrashLabel string `json:"crashlabel,omitempty"`
 	CrashHit   int    `json:"crashhit,omitempty"`
 	CountHits  bool   `json:"counthits,omitempty"`
+}
+
+// Step is one action of a watch-style session on a loaded Project.
+type Step struct {
+	Kind  string `json:"kind"`            // "write" | "remove" | "reload" | "run"
+	Path  string `json:"path,omitempty"`  // root-relative file (write, remove)
+	Data  []byte `json:"data,omitempty"`  // new content (write)
+	Label string `json:"label,omitempty"` // target to run (run; "" = the request's label)
+}
+
+// StepResult is the outcome of one Step.
+type StepResult struct {
+	Err      string   `json:"err,omitempty"`
+	Targets  []string `json:"targets,omitempty"` // after a successful reload
+	EventsAt int      `json:"eventsat"`          // index into Events where this step's events begin
 }
 
 // BuildResult is what one build produced.
@@ -181,9 +204,10 @@ type BuildResult struct {
 	Targets     []string          `json:"targets,omitempty"`
 	Sources     []string          `json:"sources,omitempty"`
 	RecordPaths map[string]string `json:"recordpaths,omitempty"` // label -> record path relative to .dawn/build (see BuildReq.PathsFor)
-	LoadIndex   int               `json:"loadindex,omitempty"`   // index into Events of the LoadDone event
-	SnapLoad    string            `json:"snapload,omitempty"`    // tree+state hash right after Load (dry runs)
-	SnapRun     string            `json:"snaprun,omitempty"`     // tree+state hash right after Run
+	Steps       []StepResult      `json:"steps,omitempty"`
+	LoadIndex   int               `json:"loadindex,omitempty"` // index into Events of the LoadDone event
+	SnapLoad    string            `json:"snapload,omitempty"`  // tree+state hash right after Load (dry runs)
+	SnapRun     string            `json:"snaprun,omitempty"`   // tree+state hash right after Run
 }
 
 // OK reports whether load and run succeeded.
@@ -224,6 +248,7 @@ type Sim struct {
 	Env    *Env
 	M      *Model
 	logOff int
+	sess   *session // see WatchBuild
 }
 
 // NewSim creates the directories and writes the initial tree.
@@ -428,7 +453,7 @@ func RunBuild(env *Env, req BuildReq, logOff int) (res BuildResult, newOff int) 
 				res.GCErr = err.Error()
 			}
 		}
-		if req.NoRun {
+		if req.NoRun && len(req.Steps) == 0 {
 			return
 		}
 		l, err := label.Parse(req.Label)
@@ -439,21 +464,69 @@ func RunBuild(env *Env, req BuildReq, logOff int) (res BuildResult, newOff int) 
 		if req.DryRun {
 			res.SnapLoad = HashTree(env.Root(), nil)
 		}
-		err = proj.Run(l, &dawn.RunOptions{Always: req.Always, DryRun: req.DryRun})
-		for i := 0; i < req.Repeat && err == nil; i++ {
+		if !req.NoRun {
 			err = proj.Run(l, &dawn.RunOptions{Always: req.Always, DryRun: req.DryRun})
+			for i := 0; i < req.Repeat && err == nil; i++ {
+				err = proj.Run(l, &dawn.RunOptions{Always: req.Always, DryRun: req.DryRun})
+			}
 		}
 		if req.DryRun {
 			res.SnapRun = HashTree(env.Root(), nil)
 		}
-		if err != nil {
-			res.RunErr = err.Error()
+		settle := func() {
 			// After a cyclic-dependency error the runner returns while other targets may still be
 			// running (or not even started); wait until the goroutines of this run are gone
 			// before looking at the events or touching the tree again.
 			for i := 0; i < 600 && runtime.NumGoroutine() > baseGoroutines; i++ {
 				time.Sleep(5 * time.Millisecond)
 			}
+		}
+		if err != nil {
+			res.RunErr = err.Error()
+			settle()
+		}
+		reloadFailed := false
+		for _, st := range req.Steps {
+			rec.mu.Lock()
+			sr := StepResult{EventsAt: len(rec.Events)}
+			rec.mu.Unlock()
+			switch st.Kind {
+			case "write":
+				p := filepath.Join(env.Root(), filepath.FromSlash(st.Path))
+				os.MkdirAll(filepath.Dir(p), 0o755)
+				if err := os.WriteFile(p, st.Data, 0o644); err != nil {
+					sr.Err = err.Error()
+				}
+			case "remove":
+				os.Remove(filepath.Join(env.Root(), filepath.FromSlash(st.Path)))
+			case "reload":
+				if err := proj.Reload(); err != nil {
+					sr.Err = err.Error()
+					reloadFailed = true
+				} else {
+					reloadFailed = false
+					for _, t := range proj.Targets() {
+						sr.Targets = append(sr.Targets, t.Label().String())
+					}
+				}
+			case "run":
+				if reloadFailed {
+					// watch mode does not build after a failed reload
+					sr.Err = "skipped: the last reload failed"
+					break
+				}
+				sl := l
+				if st.Label != "" {
+					if pl, err := label.Parse(st.Label); err == nil {
+						sl = pl
+					}
+				}
+				if err := proj.Run(sl, &dawn.RunOptions{Always: req.Always, DryRun: req.DryRun}); err != nil {
+					sr.Err = err.Error()
+					settle()
+				}
+			}
+			res.Steps = append(res.Steps, sr)
 		}
 	}()
 	rec.mu.Lock()
@@ -554,4 +627,137 @@ func (s *Sim) CloneFull() (*Sim, error) {
 	}
 	c := &Sim{Env: &Env{Base: base}, M: s.M.Clone(), logOff: s.logOff}
 	return c, nil
+}
+
+// ---- watch-style sessions ------------------------------------------------------------------
+
+// session is a Project kept loaded across operations of a history, as `dawn watch` and the REPL keep
+// one: every later build on it is Reload followed by Run.
+type session struct {
+	proj *dawn.Project
+	rec  *Recorder
+	args []string
+}
+
+// WatchBuild builds label on the sim's long-lived Project: the first call loads it (as a fresh
+// Load does), later calls Reload it. The result has the same shape as that of Build; LoadErr holds a
+// Reload error.
+func (s *Sim) WatchBuild(req BuildReq) (res BuildResult) {
+	if req.Args == nil {
+		req.Args = s.M.FlagArgs()
+	}
+	baseGoroutines := runtime.NumGoroutine()
+	defer func() {
+		if p := recover(); p != nil {
+			res.Panic = fmt.Sprint(p)
+			s.sess = nil
+		}
+		if s.sess != nil {
+			s.sess.rec.mu.Lock()
+			res.Events = append([]Event{}, s.sess.rec.Events...)
+			s.sess.rec.Events = nil
+			s.sess.rec.mu.Unlock()
+		}
+		res.Log, s.logOff = s.Env.ReadLog(s.logOff)
+	}()
+	if s.sess != nil && fmt.Sprint(s.sess.args) != fmt.Sprint(req.Args) {
+		s.sess = nil // other command-line flags: a new process
+	}
+	if s.sess == nil {
+		rec := &Recorder{}
+		env := &Env{Base: s.Env.Base}
+		proj, err := dawn.Load(env.Root(), &dawn.LoadOptions{Args: req.Args, Events: rec, Builtins: env.Builtins()})
+		if err != nil {
+			res.LoadErr = err.Error()
+			res.Events = append([]Event{}, rec.Events...)
+			return res
+		}
+		s.sess = &session{proj: proj, rec: rec, args: req.Args}
+	} else if err := s.sess.proj.Reload(); err != nil {
+		res.LoadErr = err.Error()
+		return res
+	}
+	s.sess.rec.mu.Lock()
+	res.LoadIndex = len(s.sess.rec.Events)
+	s.sess.rec.mu.Unlock()
+	l, err := label.Parse(req.Label)
+	if err != nil {
+		res.RunErr = "bad label: " + err.Error()
+		return res
+	}
+	if err := s.sess.proj.Run(l, &dawn.RunOptions{Always: req.Always, DryRun: req.DryRun}); err != nil {
+		res.RunErr = err.Error()
+		for i := 0; i < 600 && runtime.NumGoroutine() > baseGoroutines; i++ {
+			time.Sleep(5 * time.Millisecond)
+		}
+	}
+	return res
+}
+
+// OldFormatRecord rewrites the persisted record of function target id as a dawn version before the
+// "parameters" part of function fingerprints wrote it: the same environment, pickled with
+// three-argument function objects. (dawn still reads such records.) It reports false when the target
+// cannot be rewritten that way (no record yet, closure-made function).
+func (s *Sim) OldFormatRecord(id int) bool {
+	t := s.M.Targets[id]
+	if t.Removed || s.M.effectiveBody(&t) == 2 {
+		return false
+	}
+	env := &Env{Base: s.Env.Base}
+	proj, err := dawn.Load(env.Root(), &dawn.LoadOptions{Args: s.M.FlagArgs(), Events: &Recorder{}, Builtins: env.Builtins()})
+	if err != nil {
+		return false
+	}
+	pkg, err := label.Parse(s.M.Pkgs[t.Pkg])
+	if err != nil {
+		return false
+	}
+	// the function value, through the module system: load it from the package's BUILD file
+	thread, predeclared := proj.REPLEnv(io.Discard, pkg)
+	src := fmt.Sprintf("load(%q, \"f%d\")\nFN = f%d\n", s.M.Pkgs[t.Pkg]+":BUILD.dawn", id, id)
+	globals, err := starlark.ExecFile(thread, "<old-format>", src, predeclared)
+	if err != nil {
+		return false
+	}
+	fn, ok := globals["FN"].(*starlark.Function)
+	if !ok {
+		return false
+	}
+	inProgress := map[*starlark.Function]bool{}
+	old := pickle.PicklerFunc(func(x starlark.Value) (string, string, starlark.Tuple, error) {
+		if f, ok := x.(*starlark.Function); ok {
+			if inProgress[f] {
+				return "dawn", "Recursion", starlark.Tuple{starlark.String(f.Name())}, nil
+			}
+			inProgress[f] = true
+		}
+		mod, name, args, err := dawn.VerifEnvPickler.Pickle(x)
+		if err == nil && mod == "dawn" && name == "Function" && len(args) > 3 {
+			args = args[:3]
+		}
+		return mod, name, args, err
+	})
+	var buf bytes.Buffer
+	if err := pickle.NewEncoder(&buf, old).Encode(fn); err != nil {
+		return false
+	}
+	tl, err := label.Parse(s.M.Label(id))
+	if err != nil {
+		return false
+	}
+	path := dawn.VerifTargetInfoPath(proj, tl)
+	data, err := os.ReadFile(path)
+	if err != nil {
+		return false
+	}
+	var rec map[string]any
+	if json.Unmarshal(data, &rec) != nil {
+		return false
+	}
+	if _, has := rec["stamp"]; !has {
+		return false
+	}
+	rec["stamp"] = base64.StdEncoding.EncodeToString(buf.Bytes())
+	out, _ := json.Marshal(rec)
+	return os.WriteFile(path, out, 0o644) == nil
 }
